@@ -184,7 +184,18 @@ theorem reads_sub (rom data : Bytes) (p st sz : Nat) (h : (rom.drop p).take data
 
 /-! ### cover / total bookkeeping -/
 
-def ind (p : Win) (x : Nat) : Nat := if p.has x then 1 else 0
+theorem ite01 (c : Prop) [Decidable c] :
+    (c ∧ (if c then 1 else 0 : Nat) = 1) ∨ (¬ c ∧ (if c then 1 else 0 : Nat) = 0) := by
+  by_cases h : c <;> simp [h]
+
+def ind (p : Win) (x : Nat) : Nat := if p.lo ≤ x ∧ x < p.lo + p.len then 1 else 0
+
+theorem ind_val (lo len x : Nat) :
+    (lo ≤ x ∧ x < lo + len ∧ ind ⟨lo, len⟩ x = 1) ∨ (¬ (lo ≤ x ∧ x < lo + len) ∧ ind ⟨lo, len⟩ x = 0) := by
+  unfold ind
+  by_cases h : lo ≤ x ∧ x < lo + len
+  · exact Or.inl ⟨h.1, h.2, by simp [h]⟩
+  · exact Or.inr ⟨h, by simp [h]⟩
 
 theorem cover_eq (ps : List Win) (x : Nat) : cover ps x = (ps.map fun p => ind p x).sum := rfl
 
@@ -202,7 +213,7 @@ theorem cover_mem (ps : List Win) (p : Win) (x : Nat) (hm : p ∈ ps) (hx : p.ha
   | cons q qs ih =>
     simp only [cover, List.map_cons, List.sum_cons]
     rcases List.mem_cons.mp hm with rfl | hm
-    · simp [hx]
+    · have := hx; simp only [Win.has] at this; simp [this]
     · have := ih hm; simp only [cover] at this; omega
 
 theorem cover_set (ps : List Win) (i : Nat) (q : Win) (x : Nat) (hi : i < ps.length) :
@@ -258,5 +269,178 @@ theorem findGap_spec (b : Bank) (size j sp : Nat) (h : findGap b size = some (j,
   rcases findGapGo_spec _ _ _ _ _ _ _ _ h with hb | ⟨_, g, hg, hsp, hn⟩
   · cases hb
   · exact ⟨g, by simpa using hg, hsp, hn⟩
+
+/-! ### the allocator invariant -/
+
+def Gap.win (g : Gap) : Win := ⟨g.start, g.stop - g.start⟩
+def Sample.win (s : Sample) : Win := ⟨s.position + s.start, s.size⟩
+
+/-- invariant of a bank together with the (ghost) list of regions handed out by fresh placements -/
+structure Inv (b : Bank) (rs : List Win) : Prop where
+  romLen : b.rom.length = b.maxSize
+  curLe : b.currentSize ≤ b.maxSize
+  bankPos : 0 < b.bankSize
+  small : b.maxSize < 1073741824 ∧ b.bankSize < 1073741824
+  gapWf : ∀ g ∈ b.gaps, g.start ≤ g.stop ∧ g.stop ≤ b.currentSize
+  regWf : ∀ r ∈ rs, r.lo + r.len ≤ b.currentSize
+  tiles : Tiles (rs ++ b.gaps.map Gap.win) b.currentSize
+  account : total rs + total (b.gaps.map Gap.win) = b.currentSize
+  housed : ∀ s ∈ b.samples, ∃ r ∈ rs, r.lo ≤ s.position ∧ s.position + s.start + s.size ≤ r.lo + r.len
+  placed : ∀ s ∈ b.samples, fitStart b.bankSize s.size (s.position + s.start) = s.position + s.start
+
+/-- admissible addition: the window lies inside the data handed over, sizes are below 1 GiB,
+and — the D11 exclusion — data that has to be placed fresh is not combined with a start offset -/
+structure Adm (b : Bank) (h : Sample) (data : Bytes) : Prop where
+  fits : h.start + h.size ≤ data.length
+  small : data.length < 1073741824
+  fresh0 : findDuplicate b h data = none → h.start = 0
+
+theorem inv_new (m bk : Nat) (hm : 0 < m) (hm2 : m < 1073741824) (hb : bk < 1073741824) : Inv (Bank.new m bk) [] := by
+  refine ⟨by simp [Bank.new], by simp [Bank.new], ?_, ?_, by simp [Bank.new], by simp, ?_, by simp [Bank.new, total], by simp [Bank.new], by simp [Bank.new]⟩
+  · simp only [Bank.new]; split <;> omega
+  · simp only [Bank.new]; split <;> omega
+  · intro x; simp [Bank.new, cover]
+
+theorem ind_le_one (p : Win) (x : Nat) : ind p x ≤ 1 := by unfold ind; split <;> omega
+
+/-- what the placement decision guarantees -/
+theorem placeFresh_spec (b : Bank) (rs : List Win) (size : Nat) (inv : Inv b rs) (hsz : size < 1073741824)
+    (hfit : (placeFresh b size).2.1 ≠ NO_FIT) :
+    let st := (placeFresh b size).1
+    let sp := (placeFresh b size).2.1
+    let gaps2 := if sp > st then (placeFresh b size).2.2 ++ [⟨st, sp⟩] else (placeFresh b size).2.2
+    let cur' := if sp ≥ b.currentSize then u32 (sp + size) else b.currentSize
+    fitStart b.bankSize size sp = sp ∧ b.currentSize ≤ cur' ∧ cur' ≤ b.maxSize ∧ sp + size ≤ cur' ∧
+    (∀ g ∈ gaps2, g.start ≤ g.stop ∧ g.stop ≤ cur') ∧
+    (∀ x, cover (gaps2.map Gap.win) x + ind ⟨sp, size⟩ x + (if x < b.currentSize then 1 else 0) =
+          cover (b.gaps.map Gap.win) x + (if x < cur' then 1 else 0)) ∧
+    (total (gaps2.map Gap.win) + size + b.currentSize = total (b.gaps.map Gap.win) + cur') ∧
+    (∀ x, sp ≤ x → x < sp + size → cover rs x = 0) := by
+  obtain ⟨hm, hbk⟩ := inv.small
+  have hcur := inv.curLe
+  have ecur : u32 b.currentSize = b.currentSize := u32_small (by omega)
+  have emax : u32 b.maxSize = b.maxSize := u32_small (by omega)
+  unfold placeFresh at hfit ⊢
+  split at hfit
+  · -- a gap is reused
+    rename_i gid sp hg
+    obtain ⟨g, hgg, hsp, hne⟩ := findGap_spec b size gid sp hg
+    have hlt : gid < b.gaps.length := by
+      rcases Nat.lt_or_ge gid b.gaps.length with h | h
+      · exact h
+      · rw [List.getElem?_eq_none h] at hgg; cases hgg
+    have hgmem : g ∈ b.gaps := List.mem_of_getElem? hgg
+    obtain ⟨hg1, hg2⟩ := inv.gapWf g hgmem
+    have egs : u32 g.start = g.start := u32_small (by omega)
+    have ege : u32 g.stop = g.stop := u32_small (by omega)
+    rw [egs, ege] at hsp
+    obtain ⟨f1, f2, f3, _⟩ := fit_spec b.bankSize size g.start g.stop inv.bankPos hbk hg1 (by omega) hsz (by rw [← hsp]; exact hne)
+    rw [← hsp] at f1 f2 f3
+    have hgd : b.gaps.getD gid ⟨0, 0⟩ = g := by
+      rw [List.getD_eq_getElem?_getD, hgg]; rfl
+    have hget : b.gaps[gid] = g := by
+      have := List.getElem?_eq_getElem hlt; rw [this] at hgg; exact Option.some.inj hgg
+    simp only [hg, hgd, egs]
+    have esz : u32 (sp + size) = sp + size := u32_small (by omega)
+    simp only [esz]
+    have hcur' : (if sp ≥ b.currentSize then sp + size else b.currentSize) = b.currentSize := by
+      split <;> omega
+    rw [hcur']
+    have hidem : fitStart b.bankSize size sp = sp := by
+      rw [f1]; exact fitStart_idem _ _ _ inv.bankPos hbk (by omega) hsz
+    -- the modified gap list
+    have hmapset : (b.gaps.set gid { g with start := sp + size }).map Gap.win =
+        (b.gaps.map Gap.win).set gid ⟨sp + size, g.stop - (sp + size)⟩ := by
+      rw [List.map_set]; rfl
+    have hlen' : gid < (b.gaps.map Gap.win).length := by simpa using hlt
+    have hgetm : (b.gaps.map Gap.win)[gid] = ⟨g.start, g.stop - g.start⟩ := by
+      simp [hget, Gap.win]
+    refine ⟨hidem, Nat.le_refl _, hcur, by omega, ?_, ?_, ?_, ?_⟩
+    · intro g' hg'
+      have hin : g' ∈ b.gaps.set gid { g with start := sp + size } ∨ g' = ⟨g.start, sp⟩ := by
+        by_cases hgt : sp > g.start
+        · rw [if_pos hgt] at hg'
+          rcases List.mem_append.mp hg' with h | h
+          · exact Or.inl h
+          · exact Or.inr (by simpa using h)
+        · rw [if_neg hgt] at hg'; exact Or.inl hg'
+      rcases hin with h | rfl
+      · rcases List.mem_or_eq_of_mem_set h with h | rfl
+        · exact inv.gapWf g' h
+        · exact ⟨by simp; omega, hg2⟩
+      · exact ⟨by simp; omega, by simp; omega⟩
+    · intro x
+      have hs := cover_set (b.gaps.map Gap.win) gid ⟨sp + size, g.stop - (sp + size)⟩ x hlen'
+      rw [hgetm] at hs
+      by_cases hgt : sp > g.start
+      · rw [if_pos hgt, List.map_append, cover_append, hmapset, List.map_cons, List.map_nil, cover_single]
+        simp only [Gap.win] at hs ⊢
+        have b1 := ind_val g.start (g.stop - g.start) x
+        have b2 := ind_val (sp + size) (g.stop - (sp + size)) x
+        have b3 := ind_val g.start (sp - g.start) x
+        have b4 := ind_val sp size x
+        have a5 := ite01 (x < b.currentSize)
+        omega
+      · rw [if_neg hgt, hmapset]
+        simp only [ind, Gap.win] at hs ⊢
+        revert hs
+        repeat' split
+        all_goals (intro hs; omega)
+    · have ht := total_set (b.gaps.map Gap.win) gid ⟨sp + size, g.stop - (sp + size)⟩ hlen'
+      rw [hgetm] at ht
+      by_cases hgt : sp > g.start
+      · rw [if_pos hgt, List.map_append, total_append, hmapset]
+        simp only [total, List.map_cons, List.map_nil, List.sum_cons, List.sum_nil, Gap.win] at ht ⊢
+        omega
+      · rw [if_neg hgt, hmapset]; simp only [total] at ht ⊢; omega
+    · intro x hx1 hx2
+      have ht := inv.tiles x
+      rw [cover_append] at ht
+      have hc : 1 ≤ cover (b.gaps.map Gap.win) x :=
+        cover_mem _ (Gap.win g) x (List.mem_map_of_mem hgmem) (by simp [Win.has, Gap.win]; omega)
+      split at ht <;> omega
+  · -- appended at the end
+    rename_i hg
+    simp only [hg, ecur, emax] at hfit ⊢
+    obtain ⟨f1, f2, f3, _⟩ := fit_spec b.bankSize size b.currentSize b.maxSize inv.bankPos hbk hcur hm hsz hfit
+    generalize hspd : fitSample b.bankSize size b.currentSize b.maxSize = sp at *
+    have esz : u32 (sp + size) = sp + size := u32_small (by omega)
+    have hcur' : (if sp ≥ b.currentSize then u32 (sp + size) else b.currentSize) = sp + size := by
+      rw [esz]; split <;> omega
+    rw [hcur']
+    have hidem : fitStart b.bankSize size sp = sp := by
+      rw [f1]; exact fitStart_idem _ _ _ inv.bankPos hbk (by omega) hsz
+    refine ⟨hidem, by omega, by omega, Nat.le_refl _, ?_, ?_, ?_, ?_⟩
+    · intro g' hg'
+      by_cases hgt : sp > b.currentSize
+      · rw [if_pos hgt] at hg'
+        rcases List.mem_append.mp hg' with h | h
+        · have := inv.gapWf g' h; omega
+        · have : g' = ⟨b.currentSize, sp⟩ := by simpa using h
+          subst this; exact ⟨by simp; omega, by simp⟩
+      · rw [if_neg hgt] at hg'
+        have := inv.gapWf g' hg'; omega
+    · intro x
+      by_cases hgt : sp > b.currentSize
+      · rw [if_pos hgt, List.map_append, cover_append, List.map_cons, List.map_nil, cover_single]
+        simp only [Gap.win]
+        have b1 := ind_val b.currentSize (sp - b.currentSize) x
+        have b2 := ind_val sp size x
+        have a3 := ite01 (x < b.currentSize)
+        have a4 := ite01 (x < sp + size)
+        omega
+      · rw [if_neg hgt]
+        simp only [ind]
+        repeat' split
+        all_goals omega
+    · by_cases hgt : sp > b.currentSize
+      · rw [if_pos hgt, List.map_append, total_append]
+        simp only [total, List.map_cons, List.map_nil, List.sum_cons, List.sum_nil, Gap.win]
+        omega
+      · rw [if_neg hgt]; omega
+    · intro x hx1 hx2
+      have ht := inv.tiles x
+      rw [cover_append] at ht
+      split at ht <;> omega
 
 end Ctrmml.Wave
